@@ -42,10 +42,19 @@ def gen_weights(rng, n, kind):
     elif kind == "single":
         w = [0.0] * n
         w[rng.randrange(n)] = dy()
+    elif kind == "tiny":
+        # the whole population at a tiny (or huge) overall scale: the comb depends on ratios only
+        sc = 2.0 ** rng.choice([-34, -40, -47, -60, 45])
+        w = [sc * (dy(-3, 3) if rng.random() < 0.7 else 0.0) * rng.choice([1, 1, 1, -1]) for _ in range(n)]
+    elif kind == "nearly_equal":
+        # weights equal up to a relative 2^-20 .. 2^-30 (a well-equilibrated population), optionally at a tiny scale
+        sc = 2.0 ** rng.choice([0, 0, -36])
+        e = 2.0 ** -rng.choice([20, 24, 30])
+        w = [sc * (1.0 + rng.randint(-8, 8) * e) for _ in range(n)]
     else:
         raise ValueError(kind)
     if all(x == 0 for x in w):
-        w[rng.randrange(n)] = 1.0
+        w[rng.randrange(n)] = 1.0 if kind != "tiny" else 2.0 ** -40
     return w
 
 
@@ -54,7 +63,7 @@ def gen_zeta(rng):
     return rng.randint(1, 2 ** b - 1) / 2.0 ** b
 
 
-KINDS = ["ones", "positive", "zeros", "negative", "wild", "single"]
+KINDS = ["ones", "positive", "zeros", "negative", "wild", "single", "tiny", "nearly_equal"]
 
 
 # ---------------------------------------------------------------- implementation side
